@@ -1,7 +1,11 @@
 """property -> correspondence suites"""
-from .suites import pure, diff, walk, sync, proto, faults, metaonly, wire, filt, follow
+from .suites import pure, diff, walk, sync, proto, faults, metaonly, wire, filt, follow, copy
 
 PROPS = {
+    "C13": {"suites": [copy.CopyPreserve], "assumptions": ["Linux/ext4 semantics observed through an independent lstat snapshot; symbolic mode strings are not generated"]},
+    "C14": {"suites": [copy.CopyEscape], "assumptions": ["copy runs in a chroot'ed child; sentinels outside both roots are snapshotted before/after"]},
+    "C15": {"suites": [copy.CopyOverlay], "assumptions": ["idempotence reading: see DESIGN.md C15-T3"]},
+    "C16": {"suites": [copy.CopyFilter, filt.PatternSuite], "assumptions": ["reference set = parent-result filter walk (what Walk reports); the naive-matcher difference is finding F5"]},
     "C18": {
         "suites": [follow.Dedupe, follow.FollowLinks],
         "assumptions": ["filepath.Match is modelled for *, ?, simple classes and escapes"],
